@@ -49,6 +49,15 @@ def key_loop_var(M: Model, loop) -> str | None:
     return None
 
 
+def partial_key_loop_var(M: Model, loop) -> str | None:
+    """Name that ranges over a *part* of the aliased names only (a slice of them)."""
+    it = M.resolve(loop.iter)
+    it = strip_wrappers(it, SET_WRAPPERS)
+    if isinstance(it, ast.Subscript) and isinstance(it.slice, ast.Slice) and not (it.slice.lower is None and it.slice.upper is None) and M.keys_of_A(it.value) == "keys" and isinstance(loop.target, ast.Name):
+        return loop.target.id
+    return None
+
+
 def membership_atoms(M: Model, f, var: str | None):
     """atoms of `f` that test `var in <collection>`: {atom text: 'all' | 'filtered' | 'other:<text>'}"""
     out = {}
@@ -240,6 +249,11 @@ def _analyse_raise(C, r: ast.Raise):
     # ---- shape (i): inside a loop over all aliased names
     for L in reversed(M.loops_around(r)):
         k = key_loop_var(M, L)
+        pk = partial_key_loop_var(M, L) if k is None else None
+        if pk is not None:
+            f = M.guard(r, relative_to=L)
+            if any(equivalent(f, f_not(atom(a))) for a in membership_atoms(M, f, pk)):
+                return ("violation", L, r, f"only a part of the aliased modules is checked for existence (`{norm(L.iter, 60)}`)", True)
         if k is None:
             # shape (iv): loop over the collection of unknown names
             u = unknown_coll(M, M.resolve(L.iter))
